@@ -3,6 +3,8 @@
    canonical re-encoding, identity = hash of the re-encoding, size = length of the encoding), evaluated on
    what the implementation returned. *)
 From NG Require Export Common.Tactics Common.HarnessLib Codec.Bigint Codec.Wire Codec.TxCodec Codec.ItemCodec Codec.ExecCodec Codec.MptCodec Codec.StateCodec Codec.NetCodec.
+From NG Require Export Auth.Permission Auth.PermStore Codec.ManifestItem.
+From Coq Require String.
 From NG Require Import Common.Sha256.
 Open Scope Z_scope.
 
@@ -35,7 +37,8 @@ Inductive case :=
 | CNetAddrDec (bs : list Z) (impl : dimpl)               (* payload.AddressAndTime *)
 | CFrameDec (bs : list Z) (dz : option (list Z)) (impl : dimpl) (* network.Message.Decode; dz = what decompression of the raw payload gives *)
 | CNotifDec (bs : list Z) (impl : dimpl)                 (* state.NotificationEvent *)
-| CAerDec (bs : list Z) (impl : dimpl).                  (* state.AppExecResult (stack items in protected mode) *)
+| CAerDec (bs : list Z) (impl : dimpl)                   (* state.AppExecResult (stack items in protected mode) *)
+| CManifestItem (m : mmanifest) (impl : xitem).          (* Manifest.ToStackItem (shape), accepted back by FromStackItem *)
 
 (* decode with [d], re-encode with [w]; identity functions [h] (hashed bytes) and size *)
 Definition dec_check {A} (d : dec A) (w : A -> list Z) (hashed : option (A -> list Z)) (whole : bool)
@@ -56,6 +59,11 @@ Definition dec_check {A} (d : dec A) (w : A -> list Z) (hashed : option (A -> li
       if enc_ok && hash_ok && size_ok then 0%N else 2%N
   | _, _ => 2%N         (* accepted by one side only *)
   end.
+
+(* strings of the generated manifest cases are written as lists of byte codes (importing Coq's String module into the
+   case files would shadow List.concat / List.length) *)
+Definition str (l : list Z) : String.string :=
+  fold_right (fun c s => String.String (Ascii.ascii_of_N (Z.to_N c)) s) String.EmptyString l.
 
 Definition sha256dZ (bs : list Z) : list Z := map Z.of_N (sha256d (map Z.to_N bs)).
 (* nef checksum: first four bytes of the double SHA-256 of the body, little-endian *)
@@ -143,4 +151,11 @@ Definition check_case (c : case) : N :=
          decoded value that cannot be re-encoded, written by the harness as an empty re-encoding *)
       dec_check read_notification (fun n => match write_notification n with Some b => b | None => [] end) None false bs impl
   | CAerDec bs impl => dec_check read_aer (fun a => match write_aer a with Some b => b | None => [] end) None false bs impl
+  | CManifestItem m impl =>
+      let mo := xitem_eqb (manifest_to_item m) impl in
+      (* specification: the stored form read back by the model is a manifest that stores to the same item (the model's
+         from/to are proved inverse and injective, so this is "reads back as m") *)
+      let sp := match manifest_from_item impl with Some m' => xitem_eqb (manifest_to_item m') (manifest_to_item m) | None => false end in
+      code_of mo sp
   end.
+
